@@ -173,6 +173,9 @@ def _spikes(rng, n, T, C, polarity):
         if rng.random() < 0.4:
             # tri-phasic: a lobe of opposite sign before the main deflection, sometimes deeper than the one after it
             rebound = rebound * rng.uniform(1.5, 2.4) - rng.uniform(0.6, 0.95) * amp * np.exp(-0.5 * ((t - p + 3 * w) / (1.5 * w)) ** 2)
+        if rng.random() < 0.3:
+            # doublet: an earlier lobe of the same sign, between half and 95 % of the main one, far enough for the trace to come back above the half level in between
+            main = main + rng.uniform(0.55, 0.95) * amp * np.exp(-0.5 * ((t - p + rng.uniform(5, 8) * w) / w) ** 2)
         decay = np.exp(-np.abs(np.arange(C) - rng.integers(0, C)) / 2.0)
         out[i] = (main + rebound)[:, None] * decay[None, :] + rng.normal(0, 0.5, (T, C))
     return out
@@ -264,7 +267,7 @@ def native_half_peak(rng, ncases):
 
 
 @bounded(PROPERTY, "native_feature_laws", bound="generated spikes of either polarity with noise, T in 10..200, 1..40 channels, peaks at every position incl. last samples, NaN-padded channels: 150 batches (thorough 1500); "
-         "arr_pre_post contract exhaustively for T <= 9, all peak positions; half-peak points vs a brute-force nearest-sample reference on 60 batches",
+         "arr_pre_post contract exhaustively for T <= 9, all peak positions; half-peak points vs a brute-force nearest-sample reference on 60 batches (bi-, tri-phasic spikes and doublets crossing the half level several times)",
          clause="ordering, extremum / documented swap, half-peak points, recovery fallback, scale / permutation equivariance, batch independence")
 def b_native(B):
     rng = np.random.default_rng(B.seed)
